@@ -169,9 +169,13 @@ func (s *Storer) DelRunId(id string) error {
 func (s *Storer) resetDataSet() {
 	s.logger.Debugf("Storer reset dataset : %s", s.dir)
 
+	// swap the dataset under the lock, close the old one after unlocking: closing a reader needs
+	// the reader's mutex, and a reader that is pumping data holds that mutex while it asks the
+	// storer for the dataset (lastSeg / hasWriter -> dataSetMux.RLock)
 	s.dataSetMux.Lock()
-	defer s.dataSetMux.Unlock()
 	ra := s.dataSet
+	s.dataSet = newDataSet(nil, nil)
+	s.dataSetMux.Unlock()
 	if ra != nil {
 		ra.Close()
 	}
@@ -190,8 +194,6 @@ func (s *Storer) resetDataSet() {
 		}
 		return nil
 	})
-
-	s.dataSet = newDataSet(nil, nil)
 }
 
 func (s *Storer) Close() error {
